@@ -15,7 +15,7 @@ const char *rk_names[] = { "data", "data_ttl5", "data_ttl0", "nodata", "nodata_n
                            "refused", "notimp", "formerr_noopt", "formerr_opt", "tc", "malformed", "empty", "ck_none", "ck_valid",
                            "ck_valid2", "ck_wrongclient", "badcookie", "badcookie_bare", "cname_data", "data_mixed", "data_multi", "data_soa", "notauth" };
 const char *fg_names[] = { "wrongid", "wrongname", "wrongtype", "wrongclass", "caseflip", "wrongsrc", "othersock", "nocookie", "badclientcookie", "wrongsrc-framed", "nocookie-truncated" };
-const char *fs_names[] = { "socket", "setsockopt", "bind", "connect", "getsockname", "send_refused", "send_wouldblock", "send_short", "recv_reset", "send_eintr", "recv_eintr", "send_enobufs", "socket_eagain" };
+const char *fs_names[] = { "socket", "setsockopt", "bind", "connect", "getsockname", "send_refused", "send_wouldblock", "send_short", "recv_reset", "send_eintr", "recv_eintr", "send_enobufs", "socket_eagain", "sockcfgcb", "sockcb" };
 
 static std::string fmt(const char *f, ...)
 {
@@ -718,6 +718,35 @@ static void server_state_cb(const char *server, ares_bool_t ok, int flags, void 
   }
   w->log(fmt("serverstate(%s,%d,%d)", server, (int)ok, flags));
 }
+// application callbacks on new sockets: either may reject the socket (the library must then close it, tell the
+// application to stop watching it if it ever told it to watch, and count the attempt as failed)
+static int sock_config_cb(ares_socket_t fd, int type, void *data)
+{
+  World *w = (World *)data;
+  (void)type;
+  w->log(fmt("socket_configure_cb(%d)", fd));
+  if (take_fault(w, FS_SOCKCFGCB)) {
+    VSock *s = w->sock(fd);
+    w->net_fails.push_back({ ++w->seq, s ? s->server : -1, fd });
+    w->log("socket_configure_cb -> -1");
+    return -1;
+  }
+  return 0;
+}
+static int sock_create_cb(ares_socket_t fd, int type, void *data)
+{
+  World *w = (World *)data;
+  (void)type;
+  w->log(fmt("socket_cb(%d)", fd));
+  w->W("socket_cb_called");
+  if (take_fault(w, FS_SOCKCB)) {
+    VSock *s = w->sock(fd);
+    w->net_fails.push_back({ ++w->seq, s ? s->server : -1, fd });
+    w->log("socket_cb -> -1");
+    return -1;
+  }
+  return 0;
+}
 static void pending_write_cb(void *data)
 {
   World *w                  = (World *)data;
@@ -847,6 +876,10 @@ bool World::init()
   ares_set_server_state_callback(ch, server_state_cb, this);
   if (cfg->pending_write_cb) ares_set_pending_write_cb(ch, pending_write_cb, this);
   if (cfg->local_bind) ares_set_local_ip4(ch, 0x0a010001u);
+  if (cfg->socket_cbs) {
+    ares_set_socket_configure_callback(ch, sock_config_cb, this);
+    ares_set_socket_callback(ch, sock_create_cb, this);
+  }
   if (!cfg->sortlist.empty()) ares_set_sortlist(ch, cfg->sortlist.c_str());
   std::string csv;
   for (int i = 0; i < cfg->nservers; i++) {
